@@ -760,7 +760,13 @@ def stream_insts_items(ctx, impl, sig, oracle, n):
             d[rng.choice(["x", "y", "P", "f", "a", "n", "S"])] = mk_term(names)
         inst = Inst(d)
         if rng.random() < 0.45:
-            for k in rng.sample(["a", "b", "c", "T1"], rng.randint(1, 2)):
+            ks = rng.sample(["a", "b", "c", "T1"], rng.randint(1, 2))
+            if d and rng.random() < 0.5:
+                # a schematic TYPE variable named like a schematic variable of the term part ('a and ?a): two
+                # namespaces in the Inst, one text {'a: T, a: t} -- both entries must come back
+                ks[0] = rng.choice(sorted(d))
+                ctx.count("item:inst-type-and-term-variable-share-a-name")
+            for k in ks:
                 inst.tyinst[k] = gen_type(rng, sig, 2)
         r = rng.random()
         if r < 0.04:
@@ -792,8 +798,10 @@ def stream_insts_items(ctx, impl, sig, oracle, n):
             return True, [mk_term(names) for _ in range(rng.randint(1, 3))]
         return False, None
 
-    def mk_item(names, depth):
-        rule = rng.choice(sorted(sigs))
+    inst_rules = sorted(r for r in sigs if sigs[r] == Inst or sigs[r] == Tuple[str, Inst])
+
+    def mk_item(names, depth, want_inst=False):
+        rule = rng.choice(inst_rules) if want_inst and inst_rules else rng.choice(sorted(sigs))
         ok, args = mk_args(sigs[rule], names)
         if not ok:
             ctx.count("item:unsupported-signature:%s" % sig_name(sigs[rule]))
@@ -842,7 +850,7 @@ def stream_insts_items(ctx, impl, sig, oracle, n):
 
     for i in range(n):
         names = G.Names(rng, forbidden)
-        item = mk_item(names, 1)
+        item = mk_item(names, 1, want_inst=(i % 4 == 3))      # every fourth item carries an instantiation
         if item is None:
             continue
         flat = flatten(item)
